@@ -532,7 +532,19 @@ HILO_TEMPLATES = [
     ('lui RA, %hi(%position(L, V))\nlw RB, RA, %lo(%position(L, V))\ninclude_bytes G0.bin\nL:\naddi x0 x0 0',
      {'/w/G0.bin': ('gap', 'G0')}, 'P', 'I'),
     ('auipc RA, %hi(V)\njalr RB, RA, %lo(V)', {}, 'V', 'I'),
+    # operands with grouping of their own: the modifier applies to the value of the whole expression
+    ('lui RA, %hi(V + (W << 7))\naddi RA, RA, %lo(V + (W << 7))', {}, 'E1', 'I'),
+    ('lui RA, %hi(-(V + 1))\nlw RB, RA, %lo(-(V + 1))', {}, 'E2', 'I'),
+    ('lui RA, %hi((V + W) * 2)\nsw RA, RB, %lo((V + W) * 2)', {}, 'E3', 'S'),
+    ('lui RA, %hi(%position(L, V + (W << 11)))\nlw RB, RA, %lo(%position(L, V + (W << 11)))\ninclude_bytes G0.bin\nL:\naddi x0 x0 0',
+     {'/w/G0.bin': ('gap', 'G0')}, 'P2', 'I'),
 ]
+HILO_EXPR = {
+    'E1': lambda V, W, base: V + (W << 7),
+    'E2': lambda V, W, base: -(V + 1),
+    'E3': lambda V, W, base: (V + W) * 2,
+    'P2': lambda V, W, base: base + V + (W << 11),
+}
 
 
 def hilo_pairs_task(k, bits):
@@ -547,8 +559,10 @@ def hilo_pairs_task(k, bits):
     def fn(p):
         consts = dict(RA=p.int('RA', lo=0, hi=31), RB=p.int('RB', lo=0, hi=31))
         markers = {}
-        if vkind in ('V', 'P'):
+        if vkind in ('V', 'P') or vkind in HILO_EXPR:
             consts['V'] = p.int('V', bits)
+        if vkind in HILO_EXPR:
+            consts['W'] = p.int('W', lo=0, hi=31)
         if files:
             markers['G0'] = p.int('G0', lo=0, hi=(1 << 23))
         p.notes.update(constants=consts, markers=markers)
@@ -583,6 +597,8 @@ def hilo_pairs_task(k, bits):
             target = p.notes['constants']['V']
         elif vkind == 'L':
             target = 8 + p.notes['markers']['G0']
+        elif vkind in HILO_EXPR:
+            target = HILO_EXPR[vkind](p.notes['constants']['V'], p.notes['constants']['W'], (8 + p.notes['markers']['G0']) if files else 0)
         else:
             target = p.notes['constants']['V'] + 8 + p.notes['markers']['G0']
         if len(res['samples']) < 2:
